@@ -226,3 +226,70 @@ Theorem C01_predicate_rule_root_refuted :
     spec_tree (spec_run g c orc fuel input) = [NT 0 [NT 1 [NT 2 [NT 3 []]; T 5 0 1 true]; T 6 1 0 true]].
 Proof. exists SpecTotal.g_predroot, c_default, (fun _ _ => None), 50, [120]%N. exact SpecTotal.refuted_predroot. Qed.
 Print Assumptions C01_predicate_rule_root_refuted.
+
+From TxV Require Proofs.SpecCmt.
+
+(* The Comment rule.  For tables whose Comment rule is a single regex terminal, in the mode-constant class
+   (every node passes node_ok; no rule-level ws/skipws, no eolterm: SpecCmt.wfgc, decidable), global skipws
+   on, a non-empty-match oracle whose matches stay inside the input, every input and every fuel: if the
+   interpreter terminates, it accepts exactly when the documented semantics accept and the tree clauses of
+   C01_refinement_partial hold - with the reference side evaluated at fuel + |input| + 2, because a
+   comment_positions cache hit lets the interpreter skip comments at a recursion depth where the reference
+   semantics has to re-parse them (the simulation at equal fuel is false near fuel exhaustion). *)
+Theorem C01_refinement_comments :
+  forall g pf c orc fuel input,
+    SpecCmt.wfgc g pf = true -> c_skipws c = true -> orc_pos orc ->
+    (forall o p l, orc o p = Some l -> p + l <= length input) ->
+    let fs := fuel + (length input + 2) in
+    match run g c orc false fuel input with
+    | Parsed r =>
+      exists ts p, spec_run g c orc fs input = SOk ts p /\
+                   (nosep g = true -> erase_all ts = flatten r) /\
+                   exists tsq, spec_run_q g c orc fs input = SOk tsq p /\ erase_all tsq = flatten r
+    | SyntaxErr _ => spec_run g c orc fs input = SFail
+    | Aborted _ => True
+    end.
+Proof. exact SpecCmt.refinement_cmt. Qed.
+Print Assumptions C01_refinement_comments.
+
+Example C01_refinement_comments_nonvacuous :
+  SpecCmt.wfgc SpecCmt.g_cmt 24 = true /\ wfg SpecCmt.g_cmt 24 = false /\
+  match run SpecCmt.g_cmt SpecCmt.c_skip (orc_of SpecCmt.t_cmt1) false 40 SpecCmt.in_cmt1 with Parsed _ => true | _ => false end = true /\
+  match spec_run SpecCmt.g_cmt SpecCmt.c_skip (orc_of SpecCmt.t_cmt1) (40 + (16 + 2)) SpecCmt.in_cmt1 with SOk _ _ => true | _ => false end = true.
+Proof. exact SpecCmt.cmt_in_class. Qed.
+Print Assumptions C01_refinement_comments_nonvacuous.
+
+(* the hypothesis global skipws = true is necessary: Arpeggio parses comments even under noskipws
+   ("ma/*c*/b" is accepted), the documented semantics skip nothing *)
+Theorem C01_comments_noskipws_refuted :
+  SpecCmt.wfgc SpecCmt.g_cmt 24 = true /\ c_skipws SpecCmt.c_noskip = false /\
+  match run SpecCmt.g_cmt SpecCmt.c_noskip (orc_of SpecCmt.t_cmt2) false 40 SpecCmt.in_cmt2 with Parsed _ => true | _ => false end = true /\
+  spec_run SpecCmt.g_cmt SpecCmt.c_noskip (orc_of SpecCmt.t_cmt2) (40 + (8 + 2)) SpecCmt.in_cmt2 = SFail.
+Proof. exact SpecCmt.refuted_cmt_noskipws. Qed.
+Print Assumptions C01_comments_noskipws_refuted.
+
+From TxV Require Proofs.SpecCmtTotal.
+
+(* ... and unconditionally: tables of the Comment class that pass the termination analysis return a verdict at
+   every fuel from the computable bound on (they neither run out of fuel nor crash), and it is the verdict
+   of the documented semantics *)
+Theorem C01_refinement_comments_total :
+  forall g pf c orc input f,
+    SpecCmt.wfgc g pf = true -> c_skipws c = true -> PegTerm.terminating PegTerm.none_nullable g = true ->
+    PegTerm.orc_sane g input orc -> orc_pos orc -> PegTerm.fuel_bound PegTerm.none_nullable g input <= f ->
+    let fs := f + (length input + 2) in
+    (exists r ts p, run g c orc false f input = Parsed r /\ spec_run g c orc fs input = SOk ts p /\
+                    (nosep g = true -> erase_all ts = flatten r) /\
+                    exists tsq, spec_run_q g c orc fs input = SOk tsq p /\ erase_all tsq = flatten r) \/
+    (exists e, run g c orc false f input = SyntaxErr e /\ spec_run g c orc fs input = SFail).
+Proof. exact SpecCmtTotal.refinement_cmt_total. Qed.
+Print Assumptions C01_refinement_comments_total.
+
+Example C01_refinement_comments_total_nonvacuous :
+  SpecCmt.wfgc SpecCmt.g_cmt 24 = true /\ c_skipws SpecCmt.c_skip = true /\
+  PegTerm.terminating PegTerm.none_nullable SpecCmt.g_cmt = true /\
+  PegTerm.orc_sane SpecCmt.g_cmt SpecCmt.in_cmt1 (orc_of SpecCmt.t_cmt1) /\ orc_pos (orc_of SpecCmt.t_cmt1) /\
+  PegTerm.fuel_bound PegTerm.none_nullable SpecCmt.g_cmt SpecCmt.in_cmt1 = 194 /\
+  accepts (run SpecCmt.g_cmt SpecCmt.c_skip (orc_of SpecCmt.t_cmt1) false 194 SpecCmt.in_cmt1) = true.
+Proof. exact SpecCmtTotal.cmt_total_nonvacuous. Qed.
+Print Assumptions C01_refinement_comments_total_nonvacuous.
